@@ -324,6 +324,20 @@ pub fn check_def(id: &str) -> Option<CheckDef> {
         "C15" => d("C15", vec![simple_modes_profile()]),
         "C21" => d("C21", vec![block_alt_profile()]),
         "C22" => d("C22", vec![special_profile()]),
+        "C16" | "C17" | "C18" | "C19" | "C20" => CheckDef {
+            quick_runs: 60_000,
+            thorough_runs: 2_000_000,
+            ..d(
+                match id {
+                    "C16" => "C16",
+                    "C17" => "C17",
+                    "C18" => "C18",
+                    "C19" => "C19",
+                    _ => "C20",
+                },
+                vec![],
+            )
+        },
         "C28" => d("C28", vec![custom_profile()]),
         "C29" => d("C29", vec![names_profile()]),
         "C30" => d("C30", vec![additions_profile()]),
@@ -520,6 +534,12 @@ pub fn judge_c04(sc: &Scenario, seeds: usize) -> (Judged, RunResult) {
 
 pub fn judge(id: &str, sc: &Scenario, hash_seeds: usize) -> (Judged, RunResult, Scenario) {
     match id {
+        "C16" | "C17" | "C18" | "C19" | "C20" => {
+            let mut st = crate::execcheck::ExecStats::default();
+            let (j, r) = crate::execcheck::judge_exec(id, sc, &mut st);
+            crate::execcheck::flush_stats(&st);
+            (j, r, sc.clone())
+        }
         "C04" => {
             let (j, r) = judge_c04(sc, hash_seeds);
             (j, r, sc.clone())
